@@ -106,9 +106,9 @@ func TestMC(t *testing.T) {
 					ev.Distinct(sc.Name + "|" + k)
 				}
 				if st.Restarted {
-				ev.Note("scenario %s mode %s: a second thread entered the store package; file operations were explored as scheduling points", sc.Name, modeName(o))
-			}
-			if !st.Complete {
+					ev.Note("scenario %s mode %s: a second thread entered the store package; file operations were explored as scheduling points", sc.Name, modeName(o))
+				}
+				if !st.Complete {
 					ev.NotExhaustive(fmt.Sprintf("scenario %s mode %s stopped by its deadline/step horizon after %d executions", sc.Name, modeName(o), st.Executions))
 				}
 				if o.Prune {
